@@ -24,6 +24,7 @@ Inductive stmt :=
 | SIncDec (inc : bool) (e : expr)                    (* e++ / e-- *)
 | SIf (init : list stmt) (c : expr) (th el : list stmt)
 | SSwitch (init : list stmt) (tag : option expr) (cases : list (list expr * list stmt))  (* default: no exprs *)
+| STypeSwitch (bind : option string) (x : expr) (cases : list (list string * list stmt))   (* switch v := x.(type); default: no types *)
 | SReturn (es : list expr)
 | SExpr (e : expr)
 | SFor (init : list stmt) (cond : option expr) (post : list stmt) (body : list stmt)
